@@ -611,12 +611,83 @@ def run(ctx, tier, seed, shard, nshards):
             check_case(ctx, case)
         ctx.count("directed_mixin_histories", 48)
         shared_function_cases(ctx)
+        property_posthoc_cases(ctx)
 
     @given(strategy())
     def test(case):
         check_case(ctx, case)
 
     core.run_hypothesis(test, seed, n)
+
+
+def property_posthoc_cases(ctx, only=None):
+    """A precondition added to a property accessor AFTER the classes exist (require(c)(Sub.p.fset) / (Base.p.fset)) belongs
+    to that accessor alone: the base, the sub-class and a sibling keep evaluating exactly what they evaluated before."""
+    import icontract
+
+    for accessor in ("fget", "fset", "fdel"):
+        for target in ("sub-class", "base"):
+            if only and only != [accessor, target]:
+                continue
+            log = []
+
+            def cond(tag):
+                if accessor == "fset":
+                    def c(self, value):
+                        log.append(tag)
+                        return True
+                else:
+                    def c(self):
+                        log.append(tag)
+                        return True
+                return c
+
+            def prop(who, contracted):
+                def getter(self):
+                    return 1
+
+                def setter(self, value):
+                    pass
+
+                def deleter(self):
+                    pass
+                fs = {"fget": getter, "fset": setter, "fdel": deleter}
+                if contracted:
+                    fs[accessor] = icontract.require(cond(who + "-pre"))(fs[accessor])
+                return property(fs["fget"], fs["fset"], fs["fdel"])
+
+            Base = type(icontract.DBC)("Base", (icontract.DBC,), {"p": prop("base", True)})
+            Sub = type(icontract.DBC)("Sub", (Base,), {"p": prop("sub", False)})
+            Sib = type(icontract.DBC)("Sib", (Base,), {"p": prop("sib", False)})
+
+            def probe():
+                out = {}
+                for K in (Base, Sub, Sib):
+                    del log[:]
+                    o = K()
+                    if accessor == "fget":
+                        o.p
+                    elif accessor == "fset":
+                        o.p = 3
+                    else:
+                        del o.p
+                    out[K.__name__] = list(log)
+                return out
+
+            before = probe()
+            owner = Sub if target == "sub-class" else Base
+            icontract.require(cond("later-pre"))(getattr(owner.__dict__["p"], accessor))
+            after = probe()
+            label = "a precondition added later to %s.p.%s" % (owner.__name__, accessor)
+            ctx.case(["property-posthoc", accessor, target], True, sample={"directed": label, "before": before, "after": after})
+            ctx.count("directed:property-posthoc-cases")
+            for name in ("Base", "Sub", "Sib"):
+                if name == owner.__name__:
+                    continue
+                if after[name] != before[name]:
+                    ctx.fail("property-posthoc|%s|%s-changed" % (accessor, name), {"property_posthoc": [accessor, target]},
+                             "%s changed %s: it evaluated %r before and %r afterwards" % (label, name, before[name], after[name]))
+                    break
 
 
 def shared_function_cases(ctx, only=None):
@@ -708,6 +779,11 @@ def shared_function_cases(ctx, only=None):
 
 
 def replay(ctx, case):
+    if case.get("property_posthoc"):
+        before = ctx.evaluations
+        property_posthoc_cases(ctx, only=case["property_posthoc"])
+        ctx.evaluations = before + 1
+        return
     if case.get("shared_function"):
         before = ctx.evaluations
         shared_function_cases(ctx, only=case["shared_function"])
